@@ -17,6 +17,8 @@ class SimpleGzipDecompressor(object):
         # This works on cpython and pypy, but not jython.
         self.decompressobj = zlib.decompressobj(16 + zlib.MAX_WBITS)
         self._held = b''
+        # Something other than a further member followed the last member.
+        self._finished = False
 
     def decompress(self, value):
         """Decompress a chunk, returning newly-available data.
@@ -29,6 +31,9 @@ class SimpleGzipDecompressor(object):
         2.2) whose contents are concatenated. What follows the last member
         and does not start with the gzip magic number is ignored.
         """
+        if self._finished:
+            return b''
+
         data = b''
         value = self._held + value
         self._held = b''
@@ -43,6 +48,9 @@ class SimpleGzipDecompressor(object):
                     self._held = value
                     break
                 else:
+                    # All that follows is ignored, wherever the next
+                    # piece happens to begin.
+                    self._finished = True
                     break
 
             data += self.decompressobj.decompress(value)
